@@ -567,6 +567,10 @@ def _gen_office():
         out["gen/nopath-nometa-b.odt"] = odf.render_odt(doc(8), opts={"no_meta": True})
         out["gen/nometa-a.odp"] = odf.render_odp(doc(9), opts={"no_meta": True})
         out["gen/nopath-nometa-b.odp"] = odf.render_odp(doc(10), opts={"no_meta": True})
+        out["gen/nocore-a.pptx"] = ooxml.render_pptx(doc(13), opts={"no_core": True})
+        out["gen/nopath-nocore-b.pptx"] = ooxml.render_pptx(doc(14), opts={"no_core": True})
+        out["gen/nocore-a.docx"] = ooxml.render_docx(doc(15), opts={"no_core": True})
+        out["gen/nopath-nocore-b.docx"] = ooxml.render_docx(doc(16), opts={"no_core": True})
         out["gen/nopath-plain.docx"] = ooxml.render_docx(doc(11))
         out["gen/nopath-plain.pptx"] = ooxml.render_pptx(doc(12))
     except Exception as e:  # noqa
@@ -597,7 +601,7 @@ def build_pool() -> dict[str, bytes]:
 
 PAIRS = [("gen/cid-a.pdf", "gen/cid-b.pdf"), ("gen/bad-operands.pdf", "gen/cid-a.pdf"), ("gen/aes256r5-empty.pdf", "gen/aes128-empty.pdf"), ("gen/cid-c.pdf", "gen/cid-a.pdf"), ("gen/comments.pptx", "gen/plain.pptx"),
          ("gen/comments.docx", "gen/plain.docx"), ("modern_ms/pptx_table.pptx", "gen/plain.pptx"), ("open_office/slide_with_notes.odp", "gen/plain.odp"), ("open_office/headings.odt", "gen/plain.odt"), ("gen/macosx-report.zip", "gen/notes-report.zip"), ("gen/hidden-dir.zip", "gen/visible-dir.zip"),
-         ("archives/test_archive.zip", "gen/notes-report.zip"), ("gen/nometa-a.odt", "gen/nopath-nometa-b.odt"), ("gen/nometa-a.odp", "gen/nopath-nometa-b.odp"),
+         ("archives/test_archive.zip", "gen/notes-report.zip"), ("gen/nometa-a.odt", "gen/nopath-nometa-b.odt"), ("gen/nometa-a.odp", "gen/nopath-nometa-b.odp"), ("gen/nocore-a.pptx", "gen/nopath-nocore-b.pptx"), ("gen/nocore-a.docx", "gen/nopath-nocore-b.docx"),
          ("gen/plain.docx", "gen/nopath-plain.docx"), ("gen/plain.pptx", "gen/nopath-plain.pptx")]
 
 
